@@ -37,7 +37,7 @@ META = {
                              "264,512}; one token outside the list at position 0, 5 or 11 of a 12-word sequence",
                   "secure_mnemonic": "num_bits in the five valid sizes (and five invalid ones), randbits(num_bits) and the microsecond clock "
                                      "symbolic, extra_entropy in {0, 1, 2^num_bits-1, 2^num_bits+5, 2^300+7}",
-                  "pbkdf2": "passphrase lengths {1,5,129} x salt lengths {0,8,20}, all bytes symbolic, rounds {1,2,3}, SHA-512 (64-byte "
+                  "pbkdf2": "passphrase lengths {1,5,129} (rounds 2,3) and {1, block-1, block, block+1} (rounds 1) x salt lengths {0,8,20}, all bytes symbolic, rounds {1,2,3}, SHA-512 (64-byte "
                             "blocks) and the class default SHA-1 (20-byte blocks), read patterns (64), (20,44,1), (130), (1): 1..4 blocks, "
                             "buffered partial reads",
                   "kdf": "hmac_sha512_kdf (2048 rounds, one 64-byte block): 60 symbolic passphrase bytes with 12 symbolic salt bytes; a 59-"
@@ -1044,6 +1044,37 @@ def ob_wordlist():
                                      "full-word lookup (the facts the handle model assumes)")
 
 
+BIP39_ENGLISH_SHA256 = "2f5eed53a4727b4bf8880d8f3f199efc90e58503646d9ff8eff3a2ed3b24dbda"  # bips/bip-0039/english.txt
+
+
+def _words_digest(words):
+    import hashlib
+    return hashlib.sha256(("\n".join(words) + "\n").encode()).hexdigest()
+
+
+def ob_wordlist_spec():
+    """the word list is data, not code: nothing for a solver to quantify over.  Concrete comparison of the list the library actually
+    loads with the BIP39 specification's list (by its SHA-256); reported as engine 'concrete'.  A mismatch is a violation of
+    'the mnemonic encodes the entropy ... as defined by BIP39' for every entropy that selects a differing index."""
+    import time
+    t0 = time.time()
+    words = list(loader.native("mnemonic").BIP39.words)
+    got = _words_digest(words)
+    viol = []
+    if got != BIP39_ENGLISH_SHA256:
+        viol.append({"label": "the BIP39 word list loaded by the library is not the specification's english.txt",
+                     "witness": {"sha256": got, "n_words": len(words)}, "replay": "wordlist_spec"})
+    return {"engine": "concrete", "stats": core.Stats().asdict(), "classes": {}, "violations": viol, "inconclusive": [],
+            "wall_s": round(time.time() - t0, 3), "sample": {"trusted_base": "sha256 of the loaded BIP39 word list", "sha256": got},
+            "symbolic": False, "vars": []}
+
+
+def replay_wordlist_spec(w):
+    from buidl import mnemonic
+    got = _words_digest(list(mnemonic.BIP39.words))
+    return {"violated": got != BIP39_ENGLISH_SHA256, "observed": f"sha256 of the loaded word list {got}, BIP39 english.txt {BIP39_ENGLISH_SHA256}"}
+
+
 # ---------------------------------------------------------------------------------------- registry
 
 def obligations(tier):
@@ -1061,7 +1092,10 @@ def obligations(tier):
     if q:
         for algo in ("sha512", "sha1"):
             for rounds in (1, 2, 3):
-                obs.append(Ob("O2-pbkdf2", ob_pbkdf2, {"algo": algo, "rounds": rounds, "lps": (1, 5, 129), "lss": (0, 8, 20), "readsets": readsets},
+                # passphrase lengths around the hash block size (HMAC hashes keys strictly longer than the block): 64 for SHA-1, 128 for SHA-512
+                blk = 128 if algo == "sha512" else 64
+                lps = (1, 5, 129) if rounds > 1 else (1, blk - 1, blk, blk + 1)
+                obs.append(Ob("O2-pbkdf2", ob_pbkdf2, {"algo": algo, "rounds": rounds, "lps": lps, "lss": (0, 8, 20), "readsets": readsets},
                               replay="pbkdf2"))
         kdfs = [((60, 12, False),), ((59, 8, True),)]
         seam = [tuple((nw, p, l) for nw in VALID_WORDS) for p, l in (("full", 0), ("alternating", 1), ("prefix", 4), ("full", 9))]
@@ -1085,4 +1119,5 @@ def obligations(tier):
         obs.append(Ob("O2-from-mnemonic", ob_seed, {"cases": cases, "e2e": True}, replay="seed", budget_s=900))
     obs.append(Ob("O2-from-seed", ob_from_seed, {"lengths": (16, 32, 64)}, replay="from_seed"))
     obs.append(Ob("O3-wordlist", ob_wordlist))
+    obs.append(Ob("O3-wordlist-spec", ob_wordlist_spec, replay="wordlist_spec"))
     return obs
